@@ -119,6 +119,23 @@ def cli(argv):
             raise CliExit(f"exit status {exc.code} for {list(argv)!r}"[:400]) from None
 
 
+def cli_out(argv):
+    """Like cli(), but returns what the command printed on standard output."""
+    import io
+    import sys
+    tf = use_repo()
+    out, err = sys.stdout, sys.stderr
+    sys.stdout, sys.stderr = io.StringIO(), io.StringIO()
+    try:
+        try:
+            tf.execute(list(argv))
+        except SystemExit as exc:
+            raise CliExit(f"exit status {exc.code} for {list(argv)!r}"[:400]) from None
+        return sys.stdout.getvalue()
+    finally:
+        sys.stdout, sys.stderr = out, err
+
+
 def decode(raw):
     """Lenient structural decode (bytes keys, order preserved)."""
     return refspec.lenient_decode(raw)
